@@ -65,6 +65,7 @@ type c31Scenario struct {
 	Jitter  float64  `json:"jitter"`
 	SkewNs  int      `json:"skew_ns"` // sub-microsecond offset of the virtual clock (drives addJitter)
 	Choices []int    `json:"choices,omitempty"`
+	Long    *c31Long `json:"long,omitempty"` // set for a case of the long-run part (longrun_test.go); Level is "longrun" then
 }
 
 func (sc c31Scenario) String() string {
@@ -431,6 +432,14 @@ func TestVerif_C31(t *testing.T) {
 	r.Assume("scheduling points at every mutex, timer arm/stop, context cancel and spawn of internal/peer/reconnect.go and manager.go; an attempt 'starts' when the reconnector invokes its callback; lateness of a timer is never judged, only earliness and the durations the timers are armed with")
 	var rp c31Scenario
 	if r.ReplayInto(&rp) {
+		if rp.Long != nil {
+			w, out := c31LongRun(*rp.Long)
+			c31LongCheck(r, *rp.Long, w, out)
+			if err := r.Finish(); err != nil {
+				t.Fatal(err)
+			}
+			return
+		}
 		w, out := c31Run(rp, vmc.NewReplayChooser(rp.Choices))
 		c31Check(r, rp, w, out, rp.Choices)
 		r.Add("states", 1)
@@ -476,6 +485,8 @@ func TestVerif_C31(t *testing.T) {
 		}
 	}
 	r.Add("scenarios_completed", int64(completed))
+	// long-run part: one address through up to 100 (thorough 300) consecutive failures per configuration
+	c31LongPart(r)
 	if err := r.Finish(); err != nil {
 		t.Fatal(err)
 	}
